@@ -71,7 +71,11 @@ def job_convert():
         cfg = api_models(api_config())
 
         def setup(ctx, interp, many=many):
-            a = dict(infn=SU(z3.Const("infn", U), str), outfn=SU(z3.Const("outfn", U), str), infmt=Opaque("infmt"), outfmt=Opaque("outfmt"), allow=Opaque("allow_changes"))
+            # formats: None or a name; allow_changes: a boolean (both values)
+            infmt = interp.resolve(SOpt(z3.Bool("infmt.isnone"), SU(z3.Const("infmt", U), str)))
+            outfmt = interp.resolve(SOpt(z3.Bool("outfmt.isnone"), SU(z3.Const("outfmt", U), str)))
+            allow = interp.ctx.branch(z3.Bool("allow_changes"))
+            a = dict(infn=SU(z3.Const("infn", U), str), outfn=SU(z3.Const("outfn", U), str), infmt=infmt, outfmt=outfmt, allow=allow)
             return main_mod().convert, [a["infn"], a["outfn"], many, a["infmt"], a["outfmt"], a["allow"]], {}, a
 
         def post(out, env, many=many):
@@ -104,8 +108,11 @@ def job_main():
 
         def parse(interp, args, kwargs, many=many, ns=ns):
             a = Opaque("args")
-            for k in ("input", "output", "infmt", "outfmt", "allow_changes"):
+            for k in ("input", "output"):
                 a.attrs[k] = Opaque(f"args.{k}")
+            for k in ("infmt", "outfmt"):
+                a.attrs[k] = interp.resolve(SOpt(z3.Bool(f"args.{k}.isnone"), SU(z3.Const(f"args.{k}", U), str)))
+            a.attrs["allow_changes"] = interp.ctx.branch(z3.Bool("args.allow_changes"))
             a.attrs["many"] = many
             ns["a"] = a
             interp.ctx.event("parse_args")
@@ -202,7 +209,12 @@ tmp = tempfile.mkdtemp()
 fails, cases = [], 0
 PAIRS = [("water.xyz", "out.pdb", []), ("water.xyz", "out.sdf", []), ("water_trajectory.xyz", "traj.pdb", ["-m"]), ("h2o_sto3g.fchk", "out.molden", []), ("h2o_sto3g.fchk", "out.wfn", []),
          ("h2o_sto3g.fchk", "out.xyz", []), ("water.xyz", "o.dat", ["-o", "mol2"]), ("water.xyz", "out.fchk", []), ("h2o_sto3g.fchk", "o2.dat", ["--outfmt", "wfx"]), ("water.xyz", "out.nonsense", []),
-         ("nonexistent.xyz", "out.pdb", []), ("water_trajectory.xyz", "traj.sdf", ["--many"]), ("h2o_sto3g.wfn", "out.molden", ["-c"]), ("water.xyz", "out2.xyz", ["-i", "xyz"])]
+         ("nonexistent.xyz", "out.pdb", []), ("water_trajectory.xyz", "traj.sdf", ["--many"]), ("h2o_sto3g.wfn", "out.molden", ["-c"]), ("water.xyz", "out2.xyz", ["-i", "xyz"]),
+         ("water_trajectory.xyz", "traj2.sdf", ["-m", "-i", "xyz"]), ("water_trajectory.xyz", "traj3.pdb", ["-m", "-i", "xyz"]), ("GARBAGE.xyz", "g.pdb", []), ("GARBAGE_TRAJ.xyz", "g2.pdb", ["-m"]),
+         ("h2o_sto3g.fchk", "pre.mkl", []), ("water.xyz", "pre2.fchk", [])]
+with open(os.path.join(tmp, "GARBAGE.xyz"), "w") as fh: fh.write("3\ntitle\nO 0 0 0\nH 0 0 x\n")
+lines = open(os.path.join(data, "water_trajectory.xyz")).read().splitlines(keepends=True)
+with open(os.path.join(tmp, "GARBAGE_TRAJ.xyz"), "w") as fh: fh.write("".join(lines[:12]) + "garbage\n" + "".join(lines[13:20]))
 def api(inp, outp, opts):
     many = "-m" in opts or "--many" in opts
     allow = "-c" in opts
@@ -214,7 +226,7 @@ def api(inp, outp, opts):
     else: dump_one(load_one(inp, fmt=infmt), outp, fmt=outfmt, allow_changes=allow)
 for inp, outp, opts in PAIRS:
     cases += 1
-    src = os.path.join(data, inp)
+    src = os.path.join(tmp if inp.startswith("GARBAGE") else data, inp)
     a, b = os.path.join(tmp, "api_" + outp), os.path.join(tmp, "cli_" + outp)
     for f in (a, b):
         with open(f, "w") as fh: fh.write("PRECIOUS\n")
@@ -224,7 +236,7 @@ for inp, outp, opts in PAIRS:
         api_ok = False; api_exc = type(exc).__name__
     env = dict(os.environ, PYTHONPATH=repo)
     r = subprocess.run([sys.executable, "-m", "iodata", *opts, src, b], capture_output=True, text=True, env=env, cwd=tmp)
-    h = lambda f: hashlib.sha256(open(f, "rb").read()).hexdigest()
+    h = lambda f: hashlib.sha256(open(f, "rb").read()).hexdigest() if os.path.exists(f) else "MISSING"
     desc = (inp, outp, opts)
     if api_ok:
         if r.returncode != 0: fails.append((desc, "CLI failed where the API succeeded", r.stderr[-200:]))
@@ -247,7 +259,7 @@ def run_bounded(chk):
         chk.fault(f"bounded driver crashed: {out.stderr[-1500:]}")
         return
     res = json.loads(out.stdout.strip().splitlines()[-1])
-    bound = "14 (input file, output name, options) combinations run as `python -m iodata` and through the API; bytes compared, exit status and stderr checked, pre-existing target compared after failures"
+    bound = "20 (input file, output name, options) combinations incl. damaged inputs and pre-flight rejections run as `python -m iodata` and through the API; bytes compared, exit status and stderr checked, pre-existing target compared after failures"
     for kind, example in sorted(res["kinds"].items()):
         script = BOUNDED.replace(_TAIL, f"print(sig.get({kind!r}))\nif {kind!r} in sig:\n    print('REPRODUCED'); sys.exit(1)")
         chk.add_bounded(f"cli-vs-api.{kind}", bound, res["cases"], [example], replay_script=script)
